@@ -16,8 +16,11 @@ def main():
     args = sys.argv[1:]
     seeds = os.path.abspath(args.pop(0))
     props = ALL
+    own_plus = None
     if args and args[0] == '--props':
         args.pop(0); props = args.pop(0).split(',')
+    if args and args[0] == '--own-plus':        # per seed: the property it was written against plus these
+        args.pop(0); own_plus = [x for x in args.pop(0).split(',') if x]
     ids = args or sorted(d for d in os.listdir(seeds) if os.path.exists(os.path.join(seeds, d, 'patch.diff')))
     repo = os.environ.get('VP_RUN_REPO') or os.environ.get('VERIF_REPO')
     assert repo and os.path.isdir(repo) and os.path.realpath(repo) != '/repo', 'needs a scratch copy of the repository ($VP_RUN_REPO)'
@@ -41,8 +44,9 @@ def main():
         if a.returncode != 0:
             print(sid, 'APPLY FAILED', a.stderr[-300:], flush=True); continue
         res = {}
+        plist = props if own_plus is None else sorted(set([sid[:3]] + own_plus))
         try:
-            for p in props:
+            for p in plist:
                 t = time.time()
                 r = subprocess.run([sys.executable, os.path.join(ROOT, 'tools', 'check.py'), p], capture_output=True, text=True, env=env)
                 lines = [l for l in r.stdout.splitlines() if l.startswith('VIOLATION')]
@@ -57,7 +61,7 @@ def main():
             subprocess.run(['git', 'apply', '-R', patch], cwd=repo, check=True)
         res['_baseline_alarms'] = [p for p, c in base.items() if c != 0]
         json.dump(res, open(os.path.join(seeds, sid, 'eval.json'), 'w'), indent=1)
-        print(sid, 'CAUGHT-BY', [p for p in props if res[p]['exit'] != 0], {p: res[p]['tags'] for p in props if res[p]['exit'] != 0}, flush=True)
+        print(sid, 'CAUGHT-BY', [p for p in plist if res[p]['exit'] != 0], {p: res[p]['tags'] for p in plist if res[p]['exit'] != 0}, 'ran', plist, flush=True)
 
 
 if __name__ == '__main__':
